@@ -31,6 +31,8 @@ class _Dir:
         self.sent_chunks = 0
         self.last_activity = time.monotonic()
         self._last_at = 0.0
+        self.stutter = None  # (probability, delay_seconds)
+        self.stutters = 0
 
     def push(self, data):
         with self.cv:
@@ -59,6 +61,17 @@ class _Dir:
         if self.jitter:
             at += self.link.rng.random() * self.jitter
         at = max(at, self._last_at)  # FIFO
+        st = self.stutter
+        if st and len(c) > 1 and self.link.rng.random() < st[0]:
+            # TCP-like segmentation with a pause: the first few bytes of this write
+            # arrive now, the rest only after `delay` (longer than the reader's poll
+            # timeout), so a reader sees a packet header in two pieces with a timeout
+            # in between
+            k = self.link.rng.randint(1, min(len(c) - 1, 15))
+            self.q.append([at, c[:k]])
+            at += st[1]
+            c = c[k:]
+            self.stutters += 1
         self._last_at = at
         self.q.append([at, c])
 
